@@ -325,9 +325,19 @@ def _containers(items, tyname, acc):
 
 
 def apply_fault(rng, elab, items, fault):
-    """mutates the item tree in place; returns a description or None if not applicable"""
+    """mutates the item tree in place; returns a description or None if not applicable.
+    The containers of the tree are tried in random order until one is found where the fault applies, so that rare
+    faults (a key named like a fixed-name section, a reused section name, ...) are not lost to an unlucky draw."""
     conts = _containers(items, None, [])
-    cont, tyname = rng.choice(conts)
+    rng.shuffle(conts)
+    for cont, tyname in conts:
+        r = _apply_fault_at(rng, elab, cont, tyname, fault)
+        if r:
+            return r
+    return None
+
+
+def _apply_fault_at(rng, elab, cont, tyname, fault):
     children, kt = _children_of(elab, tyname)
     if children is None:
         children, kt = [], "basic-key"
@@ -338,7 +348,12 @@ def apply_fault(rng, elab, items, fault):
         names = [c[0] for c in children if c[0] and c[1][0] == "sect"]
         if not names:
             return None
-        cont.insert(pos, kv(rng.choice(names), "v"))
+        nm = rng.choice(names)
+        if rng.random() < 0.6:
+            # without the section itself: the key line is then the only thing that touches the slot
+            cont[:] = [it for it in cont if not (it[0] == "sect" and (it[2] or "").lower() == nm.lower())]
+            pos = rng.randint(0, len(cont))
+        cont.insert(pos, kv(_maybe_case(rng, kt, nm), "v"))
     elif fault == "repeat-single-key":
         ks = [it for it in cont if it[0] == "kv"]
         if not ks:
